@@ -2,6 +2,7 @@ import Hv.Driver.Core
 import Hv.Hds
 import Hv.Hdd
 import Hv.Concat
+import Hv.Footprint
 namespace Hv.Driver
 open Hv
 
@@ -51,6 +52,20 @@ def hdsCmd (st : St) : List String → String
       | .ok none => "bad-args"
       | .error e => s!"err {e}"
     | _, _ => "bad-args"
+  | "hds.footprint" :: off :: len :: ids =>
+    -- C13: per layer (base first), the file ranges `_read(off, len)` of that layer may look at: `id=off:len,off:len;id=…`
+    match off.toNat?, len.toNat? with
+    | some o, some l =>
+      let per := (List.range ids.length).map fun k =>
+        match hdsChain st 8192 (ids.take (k + 1)) with
+        | .ok (some v) => s!"{ids.getD k ""}=" ++ ",".intercalate ((Footprint.hds v o l).map fun r => s!"{r.1}:{r.2}")
+        | _ => s!"{ids.getD k ""}=?"
+      "ok " ++ ";".intercalate per
+    | _, _ => "bad-args"
+  | ["hds.openfp", id] =>
+    match st.file? id with
+    | some fh => Footprint.render (Footprint.hdsOpen fh)
+    | none => "bad-args"
   | "hds.spec" :: off :: len :: ids =>
     match off.toNat?, len.toNat?, hdsChain st 8192 ids with
     | some o, some l, .ok (some v) => fmtBytes (slice (hdsChainGuest st ids) o (min l (v.size - o)))
